@@ -158,7 +158,7 @@ def real_phase(run, prop, tier, wd, binary, scs, tr_inv, mon_inv, mon_props, tag
                 continue
             what = "%s: %s %s violated at event %d of scenario %s" % ("monitor" if layer == "mon" else "conformance",
                                                                      f["kind"], f["name"], f["line"] - 1, sc0["id"])
-            run.violation(what, dict(scenario=sc0, operator=f["name"], trace=[json.loads(x) for x in g0[1:]][:200], tlc=f["tlc"][:2500]))
+            run.violation(what, dict(family="app", scenario=sc0, operator=f["name"], trace=[json.loads(x) for x in g0[1:]][:200], tlc=f["tlc"][:2500]))
     run.cov["traces_validated_against_impl"] += len(groups)
     for sc in scs:
         nontrivial = bool(sc["procs"] or sc["runners"] or sc["loaders"] or sc["closers"])
@@ -170,6 +170,7 @@ def real_phase(run, prop, tier, wd, binary, scs, tr_inv, mon_inv, mon_props, tag
 
 def run_check(prop, tier, replay=None):
     run = vlib.Run(prop, tier, "model_checking")
+    run.write_evidence = replay is None
     rng = random.Random(run.seed * 31337 + int(prop[1:]))
     wd = vlib.scratch_dir(prop)
     try:
